@@ -24,6 +24,14 @@ class Fn:
         self.ex = Ex(self.b, self.tr)
         self.reach = self.b.reachable(0)
 
+    def param(self, k):
+        """Name of the k-th parameter of the async fn (1 = self) - whatever the source calls it."""
+        try:
+            nm = self.outer.raw["locals"][k].get("name") if self.outer is not None else None
+        except (IndexError, KeyError):
+            nm = None
+        return nm or "_%d" % k
+
     def sp(self, bb=None):
         if bb is None:
             return self.b.sp()
@@ -145,7 +153,9 @@ def config_field(e, *fields):
     if e[0] == "proj" and tuple(e[2]) == tuple(fields):
         c = strip_ref(e[1])
         return c[0] == "call" and c[1] == "zvt_feig_terminal::stream::TcpStream::config"
-    if e[0] == "path" and e[1] == "config" and tuple(e[2]) == tuple(fields):
+    # a parameter / local of type Config, whatever it is called: the field chain identifies it (`feig_config` is a field
+    # of Config only)
+    if e[0] == "path" and tuple(e[2]) == tuple(fields) and fields and fields[0] == "feig_config":
         return True
     return False
 
